@@ -218,10 +218,10 @@ func VerifH16Lifecycle() {
 		want = append(want, "firststartup@S", "startup@S", "listen@S1", "listen@S2")
 		live = append(live, "S")
 	}
-	nops := verifrt.IntRange("nops", 0, 2)
+	nops := verifrt.IntRange("nops", 0, 2+verifrt.Tier())
 	faults := []string{"", "parse", "setup", "startup", "listen", "listenpacket"}
 	for op := 0; op < nops; op++ {
-		newTag := []string{"B", "C", "D"}[op]
+		newTag := []string{"B", "C", "D", "F"}[op]
 		fault := faults[verifrt.Choose("reload", len(faults))]
 		before := append([]*Instance{}, Instances()...)
 		openBefore := len(zzOpenLn)
